@@ -159,7 +159,8 @@ func formatFromStdin(cmd *cobra.Command) error {
 
 	// In check mode, compare original and formatted
 	if formatCheck {
-		if string(content) != formattedSQL {
+		// (one line break after the formatted text is what this command prints itself)
+		if string(content) != formattedSQL && string(content) != formattedSQL+"\n" {
 			fmt.Fprintf(cmd.ErrOrStderr(), "stdin needs formatting\n")
 			os.Exit(1)
 		}
@@ -207,6 +208,17 @@ func formatInlineSQL(cmd *cobra.Command, sql string) error {
 	formattedSQL, err := formatter.formatSQL(sql)
 	if err != nil {
 		return fmt.Errorf("formatting failed: %w", err)
+	}
+
+	// In check mode the verdict is the result, as for files and stdin
+	if formatCheck {
+		if sql != formattedSQL && sql != formattedSQL+"\n" {
+			return fmt.Errorf("the SQL given needs formatting")
+		}
+		if verbose {
+			fmt.Fprintf(cmd.OutOrStdout(), "the SQL given is properly formatted\n")
+		}
+		return nil
 	}
 
 	// Ensure trailing newline
